@@ -15,6 +15,13 @@ UNMODELLED = {'Array', 'Matrix', 'Vector', 'seq', 'nops', 'op', 'print', 'printf
               'with', 'ArrayDims', 'ArrayNumDims', 'ArrayNumElems'}
 
 
+PACKAGES = {'FileTools': {'Binary', 'Text', 'Exists', 'Size', 'Position', 'AtEndOfFile', 'Remove', 'Status', 'IsOpen', 'JoinPath'},
+            'ArrayTools': {'Reshape', 'Alias', 'Dimensions', 'Size', 'NumElems', 'Permute', 'Concatenate', 'Copy', 'DataTranspose',
+                           'ElementMultiply', 'FlipDimension', 'Replicate', 'Reverse', 'ComplexAsFloat'},
+            'LinearAlgebra': {'Transpose', 'Dimension'}}
+FT_BINARY = {'Read', 'Write', 'Close', 'Open', 'CountBytes', 'ReadFile', 'WriteFile', 'Flush'}
+
+
 class Name:
     def __init__(self, name, idx=()):
         self.name, self.idx = name, tuple(idx)
@@ -365,7 +372,14 @@ class Interp:
                 return None
             if key == ('ArrayTools', 'Reshape'):
                 return self.at_reshape(args)
-            if f.name in UNMODELLED or f.name in ('FileTools', 'ArrayTools', 'LinearAlgebra'):
+            if f.name in PACKAGES:
+                member = key[-1] if len(key) > 1 else None
+                if member in PACKAGES[f.name] or (len(key) > 2 and key[1] in PACKAGES[f.name]):
+                    if len(key) > 2 and key[1] == 'Binary' and member not in FT_BINARY:
+                        raise LangError(f'{f!r}: FileTools[Binary] has no command {member}')
+                    raise Inconclusive(f'Maple command {f!r} is not modelled')
+                raise LangError(f'{f!r}: the package {f.name} has no such command')
+            if f.name in UNMODELLED:
                 raise Inconclusive(f'Maple command {f!r} is not modelled')
             raise LangError(f'{f!r} is neither defined by the program nor a Maple command for reading binary data')
         raise LangError('this object cannot be applied')
